@@ -8,10 +8,13 @@ import (
 
 	"pgregory.net/rapid"
 
+	"github.com/tdakkota/docker-logql/internal/lokiapi"
 	"github.com/tdakkota/docker-logql/verifharness/canon"
 	"github.com/tdakkota/docker-logql/verifharness/datagen"
+	"github.com/tdakkota/docker-logql/verifharness/dl"
 	"github.com/tdakkota/docker-logql/verifharness/eng"
 	"github.com/tdakkota/docker-logql/verifharness/evid"
+	"github.com/tdakkota/docker-logql/verifharness/fakedocker"
 	"github.com/tdakkota/docker-logql/verifharness/gen"
 	"github.com/tdakkota/docker-logql/verifharness/mockstore"
 	"github.com/tdakkota/docker-logql/verifharness/model"
@@ -30,6 +33,11 @@ type C19Case struct {
 	Caps mockstore.Caps `json:"caps"`
 	// Conj is how the conjunction of A and B is spelled: "and" (default), "," or " ".
 	Conj string `json:"conj,omitempty"`
+	// Docker evaluates over the product's own storage: the records are the logs of the containers
+	// named by their "container" label (the other labels of a container's first record are its
+	// Docker labels). What the engine hands to that backend as a pre-selection meets labels that
+	// exist only on records (msg, extracted fields), not on containers.
+	Docker bool `json:"docker,omitempty"`
 }
 
 func negate(s gen.Stage) gen.Stage {
@@ -79,8 +87,36 @@ func (r *c19Runner) run(q gen.LogQuery) map[string]int {
 		return nil
 	}
 	text := gen.PrintLog(&q, gen.Plain{})
-	store := mockstore.New(r.recs, r.c.Caps)
-	data, err := eng.Eval(store, text, eng.CoverAll(r.recs))
+	var (
+		data lokiapi.QueryResponseData
+		err  error
+	)
+	if r.c.Docker {
+		d := &fakedocker.Daemon{}
+		index := map[string]int{}
+		for _, rec := range r.recs {
+			name := rec.Labels["container"]
+			i, ok := index[name]
+			if !ok {
+				i = len(d.Containers)
+				index[name] = i
+				labels := map[string]string{}
+				for k, v := range rec.Labels {
+					if k != "container" {
+						labels[k] = v
+					}
+				}
+				d.Containers = append(d.Containers, dl.Ctr("id-"+name, name, labels, nil))
+			}
+			d.Containers[i].Log = append(d.Containers[i].Log, dl.EncodeLog([]dl.Line{{TS: rec.TS, Msg: string(rec.Line)}})...)
+		}
+		p := eng.CoverAll(r.recs)
+		data, err = dl.Eval(d, text, dl.Params{Start: p.Start, End: p.End, Step: p.Step, Limit: -1})
+		d.Done()
+	} else {
+		store := mockstore.New(r.recs, r.c.Caps)
+		data, err = eng.Eval(store, text, eng.CoverAll(r.recs))
+	}
 	r.evals++
 	if err != nil {
 		r.err = evid.Viol("C19/eval-error", "query %s failed: %v", text, err)
@@ -219,6 +255,7 @@ func c19Check(c C19Case) (res evid.Result) {
 		res.Class(f.Pred.Label == g.Pred.Label && f.Pred.Label != "" && f.Pred.Kind != "match" && f.Pred.Kind == g.Pred.Kind, "a-and-b-bound-one-label")
 		res.Class(msSize(and) > 0 && msSize(and) < msSize(or), "and<or")
 	}
+	res.Class(c.Docker, "docker-backend")
 	res.Class(f.Kind == "linefilter", "f=linefilter")
 	res.Class(f.Kind == "labelfilter", "f=labelfilter")
 	typed := func(s gen.Stage) bool { return s.Pred != nil && s.Pred.Kind != "match" }
@@ -305,7 +342,64 @@ func quoteMetaBytes(s string) string {
 	return out
 }
 
+// c19GenDocker draws a case over the Docker backend: containers with a few Docker labels, logfmt
+// lines, and filters that name what only a record has (msg, __error__, extracted fields) next to
+// what a container has (container, tier). (No matcher names __error__: a typed comparison writes
+// that label, so the two would not commute - they are not both "stateless filters".)
+func c19GenDocker(t *rapid.T) C19Case {
+	var c C19Case
+	c.Docker = true
+	texts := []string{"hello", "level=info n=1", "level=error n=2 dur=5s", "level=warn n=x", "GET /a 200", "hello world"}
+	ts := datagen.BaseTS
+	for i, n := 0, rapid.IntRange(1, 3).Draw(t, "dk-containers"); i < n; i++ {
+		labels := model.LabelMap{"container": fmt.Sprintf("c%d", i)}
+		if rapid.Bool().Draw(t, "dk-tier") {
+			labels["tier"] = rapid.SampledFrom([]string{"web", "db"}).Draw(t, "dk-tier-value")
+		}
+		for j, m := 0, rapid.IntRange(0, 5).Draw(t, "dk-lines"); j < m; j++ {
+			ts += 1e6
+			l := model.LabelMap{}
+			for k, v := range labels {
+				l[k] = v
+			}
+			c.Recs = append(c.Recs, model.Rec{TS: ts, Line: gen.BS(rapid.SampledFrom(texts).Draw(t, "dk-text")), Labels: l})
+		}
+	}
+	if rapid.Bool().Draw(t, "dk-selector") {
+		c.Q.Sel = []gen.Matcher{{Label: "tier", Op: rapid.SampledFrom([]string{"=", "!=", "=~"}).Draw(t, "dk-sel-op"), Value: "web"}}
+	}
+	if rapid.IntRange(0, 3).Draw(t, "dk-parser") == 0 {
+		c.Q.Stages = append(c.Q.Stages, gen.Stage{Kind: "logfmt"})
+	}
+	matcher := func(label string) gen.Stage {
+		name := rapid.SampledFrom([]string{"msg", "msg", "container", "tier", "nosuch", "level"}).Draw(t, label+"-label")
+		op := rapid.SampledFrom([]string{"=", "!=", "=~", "!~"}).Draw(t, label+"-op")
+		pool := map[string][]string{"msg": texts, "container": {"c0", "c1", ""}, "tier": {"web", "db", ""}, "nosuch": {"", "x"}, "level": {"info", "error", ""}}[name]
+		val := rapid.SampledFrom(pool).Draw(t, label+"-value")
+		if op == "=~" || op == "!~" {
+			val = rapid.SampledFrom([]string{"h.*", "hello", ".*", ".+", "c[01]", "web|db", "level=.*", ""}).Draw(t, label+"-re")
+		}
+		return gen.Stage{Kind: "labelfilter", Pred: &gen.Pred{Kind: "match", Label: name, Op: op, Str: gen.BS(val)}}
+	}
+	filter := func(label string) gen.Stage {
+		switch rapid.IntRange(0, 3).Draw(t, label+"-kind") {
+		case 0:
+			return gen.Stage{Kind: "linefilter", Op: rapid.SampledFrom([]string{"|=", "!=", "|~", "!~"}).Draw(t, label+"-lf-op"), Value: gen.BS(rapid.SampledFrom([]string{"hello", "level", "n=", "o", ""}).Draw(t, label+"-needle"))}
+		case 1:
+			return gen.Stage{Kind: "labelfilter", Pred: &gen.Pred{Kind: "num", Label: "n", Op: rapid.SampledFrom([]string{"==", ">", "<="}).Draw(t, label+"-num-op"), Text: "1", Num: 1}}
+		}
+		return matcher(label)
+	}
+	c.F, c.G = filter("dk-f"), filter("dk-g")
+	c.A, c.B = matcher("dk-a"), matcher("dk-b")
+	c.Conj = rapid.SampledFrom([]string{"and", ",", " "}).Draw(t, "dk-conj")
+	return c
+}
+
 func c19Gen(t *rapid.T) C19Case {
+	if rapid.IntRange(0, 4).Draw(t, "docker-backend") == 0 {
+		return c19GenDocker(t)
+	}
 	s := datagen.GenSchema(t, []string{"plain", "plain", "json", "logfmt", "delim", "packed"})
 	var c C19Case
 	c.Recs = datagen.GenRecs(t, s, 20, true) // unique timestamps identify records
